@@ -453,8 +453,8 @@ C12_INVS = ["P_C12_nopanic", "P_C12_loads", "P_C12_mat", "P_C12_insert", "P_C12_
 
 
 class TourProp:
-    def validate(self, prop, cases, out, d, stride=1):
-        by_name = tours_mod.execute(cases, stride=stride)
+    def validate(self, prop, cases, out, d, stride=1, rstride=1):
+        by_name = tours_mod.execute(cases, stride=stride, rstride=rstride)
         chunks, index = tours_mod.build_traces(cases, by_name, d)
         viols = run_tlc_chunks("TraceTour", C12_INVS, chunks, "TraceTour", out, max_parallel=12, workers=1)
         traces = {}
@@ -488,6 +488,15 @@ class TourProp:
         d = common.cache_dir("tourcases", tier)
         cases = tours_mod.run_gen(tier, out)
         counts = self.validate(prop, cases, out, d)
+        if tier == "quick":
+            # three-node tours and dummy tours: all networks with exactly three unit-length service trips;
+            # every remove / sub_path / depot case, every 9th insert case
+            cases3 = tours_mod.run_gen(tier, out, bnd=tours_mod.bounds3(tier), configs=tours_mod.CONFIGS3)
+            counts3 = self.validate(prop, cases3, out, d, stride=9, rstride=4)
+            for k, v in counts3.items():
+                counts[k] = counts.get(k, 0) + v
+            out.coverage["networks_with_three_trips"] = len(cases3)
+            cases = cases + cases3
         out.coverage["networks"] = len(cases)
         out.coverage["executed_cases"] = counts
         out.coverage["bounds"] = tours_mod.bounds(tier)
